@@ -131,7 +131,8 @@ type Node struct {
 	ExtraFirst bool // place the extras before the named fields
 	Elem   *Node   // KSlice, KPtr, KPre
 	// KCustom: the test is Tests[0]; KPre: PreOp
-	PreOp string // "upper", "err", "trim", "issue"
+	PreOp string // "upper", "err", "trim", "issue", "wrap"
+	Named bool   // KString: the destination type is the named type NamedStr (StringSchema[NamedStr])
 	PreID int
 }
 
